@@ -14,7 +14,10 @@
 (***************************************************************************)
 EXTENDS Integers, Sequences, FiniteSets, SequencesExt
 
-CONSTANT MaxCount         \* protocol's maximum operation count per batch
+CONSTANTS MaxCount,       \* maximum operation count per batch of protocol version 0
+          MaxCountLater   \* ... of every later protocol version (a batch is bounded by the maximum of the version
+                          \* its operations were queued under, whatever the current version is)
+MaxOf(v) == IF v = 0 THEN MaxCount ELSE MaxCountLater
 
 VARIABLES q,          \* the operation queue (sequence of operations)
           infl,       \* the batch removed from the queue and not yet anchored or returned
@@ -49,9 +52,9 @@ PTick(f) == /\ force' = f
 (* when the next queued operation belongs to another protocol version.     *)
 PCut(n) ==
   /\ infl = <<>>
-  /\ n \in 1..Len(q) /\ n <= MaxCount
+  /\ n \in 1..Len(q) /\ n <= MaxOf(q[1].ver)
   /\ \A i \in 1..n : q[i].ver = q[1].ver
-  /\ \/ n = MaxCount
+  /\ \/ n = MaxOf(q[1].ver)
      \/ force
      \/ n < Len(q) /\ q[n + 1].ver # q[1].ver
   /\ infl' = SubSeq(q, 1, n)
@@ -103,7 +106,7 @@ Conservation ==
 
 BatchBounds ==
   \A i \in DOMAIN anchored :
-    /\ Len(anchored[i]) <= MaxCount
+    /\ anchored[i] # <<>> => Len(anchored[i]) <= MaxOf(anchored[i][1].ver)
     /\ \A a, b \in DOMAIN anchored[i] : anchored[i][a].ver = anchored[i][b].ver
     /\ \A a, b \in DOMAIN anchored[i] : a # b => anchored[i][a].sfx # anchored[i][b].sfx
 
